@@ -2633,11 +2633,16 @@ void Analyser::AnalyserImpl::analyseModel(const ModelPtr &model)
         for (const auto &externalVariable : mExternalVariables) {
             auto variable = externalVariable->variable();
 
+            if (variable == nullptr) {
+                continue;
+            }
+
             if (owningModel(variable) != model) {
                 auto issue = Issue::IssueImpl::create();
+                auto component = owningComponent(variable);
 
                 issue->mPimpl->setDescription("Variable '" + variable->name()
-                                              + "' in component '" + owningComponent(variable)->name()
+                                              + ((component != nullptr) ? "' in component '" + component->name() : "")
                                               + "' is marked as an external variable, but it belongs to a different model and will therefore be ignored.");
                 issue->mPimpl->setLevel(Issue::Level::MESSAGE);
                 issue->mPimpl->setReferenceRule(Issue::ReferenceRule::ANALYSER_EXTERNAL_VARIABLE_DIFFERENT_MODEL);
@@ -3464,7 +3469,8 @@ void Analyser::analyseModel(const ModelPtr &model)
 
 bool Analyser::addExternalVariable(const AnalyserExternalVariablePtr &externalVariable)
 {
-    if (std::find(pFunc()->mExternalVariables.begin(), pFunc()->mExternalVariables.end(), externalVariable) == pFunc()->mExternalVariables.end()) {
+    if ((externalVariable != nullptr)
+        && (std::find(pFunc()->mExternalVariables.begin(), pFunc()->mExternalVariables.end(), externalVariable) == pFunc()->mExternalVariables.end())) {
         pFunc()->mExternalVariables.push_back(externalVariable);
 
         return true;
